@@ -89,6 +89,8 @@ def weak_cmd(rng, n, names):
     """One command with small parameters (for Fock comparisons)."""
     names = [x for x in names if sfgen.ALL[x][0] <= n]
     name = rng.choice(names)
+    if name == "PassiveChannel":
+        return sfgen.random_cmd(rng, n, [name])
     nm, kinds = sfgen.ALL[name]
     modes = rng.sample(range(n), nm)
     params = []
